@@ -7,10 +7,10 @@ import "fmt"
 
 // Exec is one execution: it replays a prefix of choices and then takes the default everywhere.
 type Exec struct {
-	prefix  []int
-	palts   []int
-	Choices []int
-	Alts    []int
+	prefix   []int
+	palts    []int
+	Choices  []int
+	Alts     []int
 	Diverged string
 }
 
